@@ -1368,7 +1368,13 @@ def _map_overlap(interp, a, func, *args, depth=0, boundary=None, trim=True, dtyp
     if trim:
         raise Unsupported("map_overlap(trim=True)")
     nd = a.ndim
-    dep = list(depth) if isinstance(depth, (list, tuple)) else [depth] * nd
+    # dask's depth argument (observed, installed dask): an int is used for every axis, a tuple / dict is per axis,
+    # a LIST is "one depth per array argument": with a single array its first element is used for every axis
+    if isinstance(depth, list):
+        depth = depth[0]
+    if isinstance(depth, dict):
+        depth = tuple(depth.get(i, 0) for i in range(nd))
+    dep = list(depth) if isinstance(depth, tuple) else [depth] * nd
     name = V.fresh_name("chunk")
     starts = [Sym(z3.Int(f"{name}_start{i}")) for i in range(nd)]
     stops = [Sym(z3.Int(f"{name}_stop{i}")) for i in range(nd)]
@@ -1946,6 +1952,7 @@ REG["dask.array.from_delayed"] = _from_delayed
 # dask.array ------------------------------------------------------------------
 REG["dask.array.pad"] = np_pad
 REG["dask.array.from_array"] = lambda x, *a, **k: A.from_nested(x)
+REG["dask.array.asarray"] = lambda x, *a, **k: A.from_nested(x)
 REG["dask.array.Array"] = TypeTag("dask.Array", lambda x: isinstance(x, SArr) and getattr(x, "lazy", True))
 REG["dask.array.core.Array"] = REG["dask.array.Array"]
 REG["dask.array.stack"] = np_stack
